@@ -368,6 +368,12 @@ func sinksMain(args []string) {
 			}
 			cs, _ := channel.NewChannelSink(ch, 15*time.Millisecond)
 			c2, cancel := context.WithCancel(ctx)
+			if !cd && p.chance(1, 2) && st.Counts["chan:later-deadline"] < 25 {
+				st.hit("chan:later-deadline")
+				// a context with a deadline that lies (far) after the sink's own timeout: the shorter of the two bounds the wait
+				cancel()
+				c2, cancel = context.WithTimeout(ctx, 4*time.Second)
+			}
 			if cd {
 				cancel()
 			}
@@ -389,7 +395,7 @@ func sinksMain(args []string) {
 				if got != e {
 					oracle("C13 ChannelSink handed a different event to the channel")
 				}
-			case errors.Is(err, context.Canceled):
+			case errors.Is(err, context.Canceled) || errors.Is(err, context.DeadlineExceeded):
 				obs = "ctx"
 			default:
 				obs = "timeout"
@@ -398,8 +404,8 @@ func sinksMain(args []string) {
 			if (cr || cd) && dt > 12*time.Millisecond {
 				st.hit("chan:slow-although-ready")
 			}
-			if dt > 3*time.Second {
-				oracle("C13 ChannelSink blocked %v, timeout is 15ms", dt)
+			if dt > 3500*time.Millisecond {
+				oracle("C13 ChannelSink blocked %v although its own timeout is 15ms (the context's deadline, if any, lies later): the shorter of the two bounds the wait", dt)
 			}
 			to := !(cr || cd)
 			o.emit(fmt.Sprintf("chan %s %s %s %s", bstr(cr), bstr(cd), bstr(to), obs), "ok")
